@@ -811,3 +811,12 @@ package meta
 //@   ghost hit_for_current_hash bool = false
 //@   at before Client.hashWithSalt#1: ghost hit_for_current_hash = au.bhash == userInfo.Hash
 //@   ensures old_credentials_stop_working: result1 == nil ==> checked_against_current_hash || hit_for_current_hash
+
+// ---- C07 / C19: the object that receives the new term and index was allocated by this Apply ----
+// A rejected command leaves store.data on the object published earlier (a snapshot being persisted, the client
+// long-poll and Clone readers hold it): stamping it is a write to shared, supposedly immutable metadata.
+//@ func (*storeFSM).Apply
+//@   props C07 C19
+//@   nosafety
+//@   call close#1 requires term_and_index_are_stamped_on_a_private_copy: fresh(fsm.data)
+//@   at after proto.Unmarshal#1: assume callresult0 == nil
